@@ -58,7 +58,7 @@ def worker(job):
     elif op == "to_images":
         res = attempt(lambda: m.to_images())
     elif op == "get_component":
-        res = attempt(lambda: m.get_component(param, 1) if nl == 1 else m.batch_get_component(param, 1))
+        res = attempt(lambda: m.get_component(param[0], param[1]) if nl == 1 else m.batch_get_component(param[0], param[1]))
     if isinstance(res, Rejected):
         ok_reject = (op == "norm" and nl == 0) or (op == "get_component" and nl not in (1, 2))
         if not ok_reject:
@@ -101,28 +101,33 @@ def worker(job):
                     problems.append(("per-image", "to_images: an image of type %s does not hold exactly one (batch, channel) entry" % tname(t), site_of(im.data)))
                     break
     elif op == "get_component":
-        comp = param
-        cols = {}
-        for t in types:
+        comp, steps = param
+        # documented layout: types (in sorted order), then channel-major / tensor-minor components; the
+        # channel axis of a block is (channel x time step), channel-major
+        cols = []
+        for t in sorted(types):
             b = blocks[t]
-            for li in itertools.product(*[range(x) for x in lead[:-1]]):
-                for ci in range(lead[-1]):
-                    for ti in itertools.product(range(D), repeat=t[0]):
-                        cols[(t, li, ci, ti)] = b[li + (ci,) + (slice(None),) * D + ti]
+            c = lead[-1] // steps
+            for ci in range(c):
+                for ti in itertools.product(range(D), repeat=t[0]):
+                    cols.append((t, ci, ti))
+
+        def plane(blks, col, ts):
+            t, ci, ti = col
+            return blks[t][(ci * steps + ts,) + (slice(None),) * D + ti]
+
         got = res[(0, 0)] if is_multi(res) and list(res.keys()) == [(0, 0)] else None
         if got is None:
             problems.append(("keys", "get_component does not return a single scalar block", None))
         elif nl == 1:
-            # the selected component must be exactly one (type, channel, tensor index) plane
-            hit = [key for key, c in cols.items() if got.shape == (1,) + c.shape and same_elems(got[0], c)]
-            if len(hit) != 1:
-                problems.append(("per-image", "get_component(%d) is not exactly one (type, channel, tensor-component) plane of the image" % comp, site_of(got)))
-            cfg["selected"] = str(hit[0]) if hit else None
+            exp = A.stack([plane(blocks, cols[comp], ts) for ts in range(steps)], 0)
+            if got.shape != exp.shape or not same_elems(got, exp):
+                problems.append(("component", "get_component(%d, future_steps=%d) is not component %s (type, channel, tensor index) of the image at each time step: %s" % (comp, steps, cols[comp], first_diff(got, exp) if got.shape == exp.shape else "shape %r vs %r" % (got.shape, exp.shape)), site_of(got)))
         else:
             # batched: entry b must be what the single-image operation returns for entry b
             for bi in range(lead[0]):
                 single = make_multi(it, types, {t: blocks[t][bi] for t in types}, D, flags)
-                exp = attempt(lambda: single.get_component(comp, 1))
+                exp = attempt(lambda: single.get_component(comp, steps))
                 if isinstance(exp, Rejected):
                     problems.append(("rejected", "get_component rejected the single image: %s" % exp.exc, None))
                     break
@@ -199,9 +204,10 @@ def run(ctx):
                     jobs.append((ctx.repo, "average_pool", D, ts, nl, None))
                 jobs.append((ctx.repo, "to_images", D, ts, nl, None))
                 if nl in (1, 2) and D == 2:
-                    ncomp = sum(2 * D ** t[0] for t in ts)
-                    for comp in range(ncomp) if ctx.thorough() else (0, ncomp - 1, ncomp // 2):
-                        jobs.append((ctx.repo, "get_component", D, ts, nl, comp))
+                    for steps in (1, 2):
+                        ncomp = sum((2 // steps) * D ** t[0] for t in ts)
+                        for comp in range(ncomp) if (ctx.thorough() or steps == 1) else sorted({0, ncomp - 1, ncomp // 2}):
+                            jobs.append((ctx.repo, "get_component", D, ts, nl, [comp, steps]))
     by = {}
     for job, r in ctx.pairs(worker, jobs):
         cfg = r["cfg"]
